@@ -71,7 +71,7 @@ static int nbuf;
 #define ALOG 8192
 static struct vrt_alog {
 	uint64_t t;
-	int ctx;
+	int ctx, is_load;
 	uintptr_t addr;
 } alog[ALOG];
 static unsigned nalog;
@@ -306,7 +306,7 @@ static void sched_point(int kind)
 					fire(el[k - 1]);
 			}
 		}
-	} else if (kind != PT_PLAIN && cur != 0) {
+	} else if ((kind != PT_PLAIN || every_access) && cur != 0) {
 		int el[N], n = 0;
 		for (int i = 1; i < nctx; i++)
 			if (C[i].used && !C[i].finished && i != cur)
@@ -435,6 +435,15 @@ void vrt_run(void)
 	swapcontext(&main_uc, &C[first].uc);
 	in_rt = 0;
 	cur = 0;
+	vrt_join_all();
+}
+/* the calling (main) context has waited for every other context, like pthread_join: everything they did
+ * happens-before whatever it does next (the quiescence checks of a harness) */
+void vrt_join_all(void)
+{
+	for (int i = 0; i < nctx; i++)
+		if (i != cur && C[i].used)
+			vc_join(C[cur].vc, C[i].vc);
 }
 void vrt_isr_enable(int on) { isr_enabled = on; }
 void vrt_point(void)
@@ -493,11 +502,12 @@ void vrt_set_main_clock_base(void)
 }
 const struct vrt_report *vrt_report(void) { return &R; }
 unsigned vrt_alog_count(void) { return nalog < ALOG ? nalog : ALOG; }
-void vrt_alog_get(unsigned i, uint64_t *t, int *ctx, uintptr_t *addr)
+void vrt_alog_get(unsigned i, uint64_t *t, int *ctx, uintptr_t *addr, int *is_load)
 {
 	*t = alog[i].t;
 	*ctx = alog[i].ctx;
 	*addr = alog[i].addr;
+	*is_load = alog[i].is_load;
 }
 
 /* ---------------------------------------------------------------- instrumentation ABI */
@@ -552,6 +562,7 @@ static void atomic_pre(uintptr_t a, size_t n, int mo, int is_load, int is_store,
 		alog[nalog].t = now_ctr;
 		alog[nalog].ctx = cur;
 		alog[nalog].addr = a;
+		alog[nalog].is_load = is_load;
 	}
 	nalog++;
 	atomic_shadow(a, n, !is_load, pc);
